@@ -39,8 +39,8 @@ Qed.
 (** * integers *)
 
 (** the body  value [`base` N]?  read by the loop from a state without a value *)
-Lemma int_body_loop signed_ neg ts v b : int_body_spec ts = Some (v, b) ->
-  match int_loop signed_ (mk_ist None neg false None) ts with
+Lemma int_body_loop signed_ neg sg ts v b : int_body_spec ts = Some (v, b) ->
+  match int_loop signed_ (mk_ist None neg sg false None) ts with
   | Some st => i_val st = Some v /\ i_neg st = neg /\ i_base st = b /\ (b = None -> i_marked st = false)
   | None => False
   end.
@@ -59,9 +59,9 @@ Theorem int_tokens_spec_sound signed_ ts r :
   int_tokens_spec signed_ ts = Some r -> int_tokens_asis signed_ ts = Some r.
 Proof.
   unfold int_tokens_spec, int_tokens_asis, ist0. destruct ts as [|t ts]; [discriminate|].
-  assert (W : forall neg body, 
+  assert (W : forall neg sg body,
     match int_body_spec body with Some (v, b) => Some (neg, v, b) | None => None end = Some r ->
-    match int_loop signed_ (mk_ist None neg false None) body with
+    match int_loop signed_ (mk_ist None neg sg false None) body with
     | Some st =>
         match i_val st with
         | Some v => match i_base st with
@@ -72,17 +72,68 @@ Proof.
         end
     | None => None
     end = Some r).
-  { intros neg body H. destruct (int_body_spec body) as [[v b]|] eqn:E; [|discriminate].
-    pose proof (int_body_loop signed_ neg body v b E) as L.
-    destruct (int_loop signed_ (mk_ist None neg false None) body) as [st|]; [|contradiction].
+  { intros neg sg body H. destruct (int_body_spec body) as [[v b]|] eqn:E; [|discriminate].
+    pose proof (int_body_loop signed_ neg sg body v b E) as L.
+    destruct (int_loop signed_ (mk_ist None neg sg false None) body) as [st|]; [|contradiction].
     destruct L as (L1 & L2 & L3 & L4). rewrite L1, L2, L3. destruct b; [exact H|]. rewrite (L4 eq_refl). exact H. }
   destruct (is_punct_char t 45) eqn:E45.
-  - rewrite (punct_inv t 45 E45). destruct signed_; [|discriminate]. intros H. cbn [int_loop int_step tk ttext is_char text_eqb Z.eqb Pos.eqb andb i_val].
+  - rewrite (punct_inv t 45 E45). destruct signed_; [|discriminate]. intros H.
+    cbn [int_loop int_step tk ttext is_char text_eqb Z.eqb Pos.eqb andb negb i_val i_sign].
     apply W. exact H.
   - destruct (is_punct_char t 43) eqn:E43.
-    + rewrite (punct_inv t 43 E43). destruct signed_; [|discriminate]. intros H. cbn [int_loop int_step tk ttext is_char text_eqb Z.eqb Pos.eqb andb i_val].
+    + rewrite (punct_inv t 43 E43). destruct signed_; [|discriminate]. intros H.
+      cbn [int_loop int_step tk ttext is_char text_eqb Z.eqb Pos.eqb andb negb i_val i_sign].
       apply W. exact H.
     + intros H. apply W. exact H.
+Qed.
+
+(** the converse: the loop accepts nothing else.  Every accepted token moves the loop to a later
+    phase (sign, digits, `base`, radix), so an accepted literal has at most four tokens. *)
+Definition int_phase (st : ist) : nat :=
+  match i_val st, i_base st with
+  | None, _ => if i_sign st then 1 else 0
+  | Some _, None => if i_marked st then 3 else 2
+  | Some _, Some _ => 4
+  end.
+
+Lemma int_step_phase signed_ st t st' : int_step signed_ st t = Some st' -> (int_phase st < int_phase st' <= 4)%nat.
+Proof.
+  destruct st as [v n sg m b]. destruct t as [k x]. unfold int_step, int_phase, is_char. cbn [tk ttext i_val i_neg i_sign i_marked i_base].
+  destruct k, v, b, m, sg, signed_; cbn [negb andb];
+    repeat match goal with |- context [text_eqb ?a ?c] => destruct (text_eqb a c) end;
+    intros H; inversion H; cbn; lia.
+Qed.
+
+Lemma int_loop_phase signed_ ts : forall st st', int_loop signed_ st ts = Some st' ->
+  (int_phase st + length ts <= int_phase st' <= 4)%nat.
+Proof.
+  induction ts as [|t ts IH]; intros st st' H; cbn [int_loop] in H.
+  - inversion H; subst. cbn [length]. destruct st' as [v n sg m b]. unfold int_phase. cbn. destruct v, b, m, sg; lia.
+  - destruct (int_step signed_ st t) as [st1|] eqn:E; [|discriminate].
+    pose proof (int_step_phase _ _ _ _ E). pose proof (IH _ _ H). cbn [length]. lia.
+Qed.
+
+Ltac tok_bools :=
+  repeat match goal with
+  | |- context [text_eqb ?a ?c] => destruct (text_eqb a c) eqn:?
+  | H : context [text_eqb ?a ?c] |- _ => destruct (text_eqb a c) eqn:?
+  end.
+
+Theorem int_tokens_asis_complete signed_ ts r :
+  int_tokens_asis signed_ ts = Some r -> int_tokens_spec signed_ ts = Some r.
+Proof.
+  unfold int_tokens_asis. destruct (int_loop signed_ ist0 ts) as [st|] eqn:L; [|discriminate].
+  pose proof (int_loop_phase _ _ _ _ L) as P. change (int_phase ist0) with 0%nat in P.
+  revert L. unfold ist0.
+  destruct ts as [|[k1 x1] [|[k2 x2] [|[k3 x3] [|[k4 x4] [|t5 r5]]]]]; cbn [length] in P; try lia; clear P;
+    unfold int_tokens_spec, int_body_spec, is_punct_char, is_value_tok, is_base_tok, is_lit_tok, is_char;
+    cbn [int_loop int_step tk ttext is_char i_val i_neg i_sign i_marked i_base negb andb];
+    intros L.
+  - inversion L; subst st. cbn. discriminate.
+  - destruct k1, signed_; cbn in L |- *; tok_bools; cbn in L |- *; try discriminate; inversion L; subst st; cbn; intros H; exact H.
+  - destruct k1, k2, signed_; cbn in L |- *; tok_bools; cbn in L |- *; try discriminate; inversion L; subst st; cbn; intros H; try exact H; try discriminate.
+  - destruct k1, k2, k3, signed_; cbn in L |- *; tok_bools; cbn in L |- *; try discriminate; inversion L; subst st; cbn; intros H; try exact H; try discriminate.
+  - destruct k1, k2, k3, k4, signed_; cbn in L |- *; tok_bools; cbn in L |- *; try discriminate; inversion L; subst st; cbn; intros H; try exact H; try discriminate.
 Qed.
 
 Example int_tokens_spec_nonvacuous :
@@ -90,16 +141,12 @@ Example int_tokens_spec_nonvacuous :
   = Some (true, [97; 51], Some [51; 50]).
 Proof. reflexivity. Qed.
 
-(** F03: the loop accepts sign tokens in any number (and the word `base` repeated) *)
-Theorem int_tokens_refuted :
-  exists ts, int_lax ts /\ int_tokens_spec true ts = None /\
-             int_tokens_asis true ts = Some (true, [53], None).
-Proof.
-  exists [mk_tok TPunct [45]; mk_tok TPunct [45]; mk_tok TLit [53]]. split; [|split].
-  - left. vm_compute. lia.
-  - reflexivity.
-  - reflexivity.
-Qed.
+(** F03 (repaired): repeated signs and a repeated `base` are refused *)
+Example int_repeated_sign_rejected :
+  int_tokens_asis true [mk_tok TPunct [45]; mk_tok TPunct [45]; mk_tok TLit [53]] = None /\
+  int_tokens_asis true [mk_tok TPunct [45]; mk_tok TPunct [43]; mk_tok TLit [53]] = None /\
+  int_tokens_asis false [mk_tok TLit [53]; mk_tok TIdent t_base; mk_tok TIdent t_base; mk_tok TLit [49; 48]] = None.
+Proof. repeat split; reflexivity. Qed.
 
 (* ------------------------------------------------------------------------------------------ *)
 (** * ratios *)
